@@ -17,10 +17,16 @@ OutOf(r, w) == [i \in 1..Len(w) |-> r.ids[w[i].ord]]
 IdxOf(w) == [i \in 1..Len(w) |-> w[i].index]
 ExitOf(w) == IF w = <<>> THEN 1 ELSE 0          \* man fzf, EXIT STATUS: 0 normal, 1 no match
 
+(* interactive only: the first H records are diverted to the HEADER - they are on display there (r.hdrSeen = the     *)
+(* record numbers found on the captured screen among r.hdrLegible, the records the driver can recognise there: short  *)
+(* enough, plain prefix, within the rows a header can take), also when the input has fewer than H records             *)
+HdrOrds(r) == {i \in 1..NumRecords([lens |-> r.lens, unterm |-> r.unterm]) : i <= r.header}
+HeaderShown(r) == ("hdrSeen" \in DOMAIN r) =>
+                     {r.hdrSeen[i] : i \in 1..Len(r.hdrSeen)} = {r.hdrLegible[i] : i \in 1..Len(r.hdrLegible)} \cap HdrOrds(r)
 ExplainedWith(r, T) ==
     LET w == Want(r, T) IN
     /\ r.out = OutOf(r, w)
-    /\ r.path = "interactive" => r.idx = IdxOf(w) /\ r.total = Len(w)
+    /\ r.path = "interactive" => r.idx = IdxOf(w) /\ r.total = Len(w) /\ HeaderShown(r)
     /\ r.path # "interactive" => r.exit = ExitOf(w)
 Explained(r) == ExplainedWith(r, r.tail)
 (* named deviation (DESIGN 9, F10): the run is explained by the same spec with --tail switched off *)
